@@ -35,6 +35,7 @@ func TestMain(m *testing.M) {
 			"Sub-checks large-meshes (recipe-built meshes above 65 536 vertices) and concurrent-callers: every concurrent-* case (2-5 bundled cases run at the same time after each passed alone) is non-trivial. " +
 			"One case in four of the operations without an absolute length in their contract runs at an overall scale 1e-9..1e-3 or 1e3..1e9 (classes scale/small, scale/large).",
 		Assumptions: []string{
+			"operations transformerAll (each of the 25 Transformer structs, three spellings of the attribute name, against the function it wraps: equal mesh, or both report failure; a struct that rejects what the function accepts is counted, not judged), modify (Modify*Attribute and both parallel variants, bit-exact against the callback), laplacianAxis, smoothWeld (vertices with a corner within 1e-9 relative of the weld distance, and sums that cancel, are not judged)",
 			"attribute filters and crop are exercised on point topology only (the only topology their callers use)",
 			"crop is specified per vertex (it rebuilds an identity-indexed cloud from the vertices inside the box)",
 			"remove-null-faces: triangles whose area is within 1e-9 relative of minArea are not judged (don't-care band)",
